@@ -1873,7 +1873,6 @@ Section Refine.
           rewrite EG.
           destruct (after_grow typ h f J1 (stolen :: I2) C1 c' (rgt' :: C2') false
                       (zipl J1 C1 ++ flatten c ++ zipr (sep :: I2) (rgt :: C2')) IH) as (n' & out & E & B & RS & LEN); auto.
-          -- cbn. lia.
           -- apply Forall_app in F1 as [Fa Fb]. inversion Fb as [|? ? _ Fc]; subst. inversion Fc; subst.
              apply Forall_app. split; [exact Fa|]. constructor; [exact B1|]. constructor; [exact B2|assumption].
           -- apply Forall_app in F2 as [Fa Fb]. inversion Fb as [|? ? _ Fc]; subst. inversion Fc; subst.
@@ -1913,5 +1912,39 @@ Section Refine.
           -- lia.
           -- exists n', out. split; [exact E|]. split; [exact B|]. split; [exact RS|].
              rewrite !app_length in *. cbn [length] in *. lia.
+  Qed.
+  (* func (n *node) remove, every kind of removal, every height *)
+  Theorem remove_spec : forall h, rem_ih h.
+  Proof.
+    induction h as [|h IH]; intros typ n fuel B Hs Hf NE.
+    - inversion B; subst. destruct fuel as [|f]; [lia|]. cbn [flatten] in Hs. cbn [n_its] in NE.
+      destruct (remove_leaf f its typ Hs NE) as (its' & out & E & RS).
+      exists (Node its' [] []), out. split; [exact E|]. split; [apply binv_leaf|]. split; [exact RS|].
+      pose proof (rem_length _ _ _ _ RS) as LEN. cbn [n_its]. destruct out; lia.
+    - inversion B as [|h0 its ch L F1 F2]; subst. cbn [n_its] in NE.
+      apply (remove_node typ h fuel its ch IH L NE F1 F2 Hs Hf).
+  Qed.
+
+  (* what is left of a sorted list after a removal is sorted *)
+  Lemma l0_delete_sorted x L : sorted L -> sorted (fst (l0_delete ltb x L)).
+  Proof.
+    induction L as [|a L IH]; intros Hs; cbn [l0_delete]; [exact Hs|].
+    apply sorted_cons_inv in Hs as [Hs' F].
+    destruct (ltb a x).
+    - specialize (IH Hs'). destruct (l0_delete ltb x L) as [L' o] eqn:E. cbn [fst] in *. apply sorted_cons; [exact IH|].
+      intros y Hy. apply F. clear - E Hy. revert L' o E Hy. induction L as [|b L IHL]; cbn [l0_delete]; intros L' o E Hy.
+      + inversion E; subst. destruct Hy.
+      + destruct (ltb b x).
+        * destruct (l0_delete ltb x L) as [L2 o2]. inversion E; subst. destruct Hy as [<-|Hy]; [left; reflexivity|right; eapply IHL; eauto].
+        * destruct (ltb x b); inversion E; subst; [exact Hy|right; exact Hy].
+    - destruct (ltb x a); cbn [fst]; [apply sorted_cons; assumption|exact Hs'].
+  Qed.
+
+  Lemma rem_sorted typ L L' out : rem_spec typ L L' out -> sorted L -> sorted L'.
+  Proof.
+    destruct typ as [x| |]; cbn [rem_spec].
+    - intros E Hs. pose proof (l0_delete_sorted x L Hs) as H. rewrite E in H. exact H.
+    - destruct out as [e|]; [|contradiction]. intros -> Hs. apply sorted_cons_inv in Hs as [Hs _]. exact Hs.
+    - destruct out as [e|]; [|contradiction]. intros -> Hs. apply sorted_app in Hs as (Hs & _ & _). exact Hs.
   Qed.
 End Refine.
